@@ -415,7 +415,7 @@ def generate(rng, tier):
             r = padd(r, pmul(c, pvar(v, i)))
         return r
 
-    for _ in range(260 if quick else 900):
+    for _ in range(260 if quick else 500):
         v, params = setup()
         par = rng.random() < 0.4
         k = rng.choice([2, 2, 2, 3])
@@ -435,7 +435,7 @@ def generate(rng, tier):
             else:
                 P, Q = pmul(P, L), pmul(Q, L)
         m, n = pdeg(P, v), pdeg(Q, v)
-        if m < 1 or n < 1 or m + n > (10 if par else (MAXDIM_INT + 1 if not quick else 12)) or max(m, n) > 7:
+        if m < 1 or n < 1 or m + n > (10 if par else (13 if not quick else 12)) or max(m, n) > 7:
             continue
         if rng.random() < 0.4:
             P, Q = Q, P
